@@ -5,6 +5,7 @@ one redistribution update) with theorems in Props/C20.lean; correspondence again
 the real Orificing._group on instances created with __new__ and populated with
 generated data; oracle: the property's clauses on the real _group / distribute.
 """
+import os
 import random
 
 import numpy as np
@@ -262,6 +263,168 @@ def history_oracle(ctx, rng, o, m1, power, labels, ng):
                       res=res.tolist())
 
 
+# ---------------------------------------------------------------------------------------------------------------
+# the set-up chain of the real optimiser: group_by_power -> run_parametric -> distribute, with recycled results
+
+CHAIN_INPUT = """
+[Orificing]
+    assemblies_to_group = %(types)s
+    n_groups = %(ng)d
+    value_to_optimize = peak coolant temp
+    bulk_coolant_temp = 773.15
+    pressure_drop_limit = %(lim)r
+    recycle_results = True
+[Power]
+    [[ARC]]
+        fuel_material = metal
+        fuel_alloy = zr
+        pmatrx = PMATRX
+        geodst = GEODST
+        ndxsrf = NDXSRF
+        znatdn = ZNATDN
+        labels = LABELS
+        nhflux = NHFLUX
+        ghflux = GHFLUX
+[Core]
+    gap_model          = no_flow
+    coolant_material   = sodium
+    coolant_inlet_temp = 623.15
+    length             = 1.000
+    assembly_pitch     = 0.058
+[Assembly]
+%(asm)s
+[Assignment]
+    [[ByPosition]]
+%(assign)s
+"""
+
+ASM_BLOCK = """    [[%s]]
+        num_rings       = 6
+        pin_pitch       = 0.0056
+        pin_diameter    = 0.0044
+        clad_thickness  = 0.0003
+        wire_pitch      = 0.1524
+        wire_diameter   = 0.0011
+        duct_ftf        = 0.0561, 0.0575
+        duct_material   = ss316
+"""
+
+
+class _FakePower:
+    def __init__(self, total):
+        self.pin_power = self.duct_power = self.coolant_power = None
+        self.avg_power = np.ones(4) * total
+        self._z = np.linspace(0.0, 1.0, 5)
+
+    def calculate_total_power(self):
+        return float(np.sum(self.avg_power * (self._z[1:] - self._z[:-1])))
+
+    def calculate_avg_peak_linear_power(self):
+        return float(np.max(self.avg_power)) / 271.0
+
+
+class _FakeAssembly:
+    def __init__(self, id_, name, total):
+        self.id, self.name = id_, name
+        self.loc = (0, 0) if id_ == 0 else (1, id_ - 1)
+        self.power = _FakePower(total)
+        self.total_power = self.power.calculate_total_power()
+
+
+class _FakeReactor:
+    def __init__(self, layout):
+        self.assemblies = [_FakeAssembly(i, nm, pw) for i, (nm, pw) in enumerate(layout)]
+
+
+def oracle_chain(ctx, rng, n):
+    """the real Orificing object driven as `dassh` drives it up to the first distribution: the power distribution (a pickled reactor)
+    and the single-assembly parametric sweeps are supplied as recycled results; two assembly types INTERLEAVED over the positions,
+    each with its own pressure-drop curve.  Every assembly is held against the curve of ITS OWN type."""
+    import pickle
+    import shutil
+    import dassh
+    import logging
+    for ci in range(n):
+        n_asm = rng.choice([5, 6, 7])
+        types = ['inner', 'outer']
+        names = [rng.choice(types) for _ in range(n_asm)]
+        names[0], names[1] = 'inner', 'outer'
+        if ci % 2 == 0:
+            names = [types[i % 2] for i in range(n_asm)]               # strictly alternating
+        if rng.random() < 0.5:
+            types = types[::-1]                                         # listed in the other order than they first appear
+        layout = [(nm, rng.uniform(1.5e6, 6.0e6)) for nm in names]
+        ng = rng.choice([2, 3])
+        m_at_limit = {'inner': rng.uniform(30.0, 45.0), 'outer': rng.uniform(18.0, 29.0)}
+        lim = 0.3
+        d = str(ctx.work / ("chain%d" % ci))
+        shutil.rmtree(d, ignore_errors=True)
+        os.makedirs(os.path.join(d, '_power'))
+        os.makedirs(os.path.join(d, '_parametric'))
+        for f in ('PMATRX', 'GEODST', 'NDXSRF', 'ZNATDN', 'LABELS', 'NHFLUX', 'GHFLUX'):
+            open(os.path.join(d, f), 'wb').write(b'\0' * 8)
+        assign = "\n".join("        %s = %d, %d, %d, FLOWRATE=10.0" % (nm, 1 if i == 0 else 2, 1 if i == 0 else i, 1 if i == 0 else i)
+                           for i, nm in enumerate(names))
+        open(os.path.join(d, 'input.txt'), 'w').write(CHAIN_INPUT % dict(types=", ".join(types), ng=ng, lim=lim,
+                                                                       asm="".join(ASM_BLOCK % t for t in ('inner', 'outer')), assign=assign))
+        pickle.dump(_FakeReactor(layout), open(os.path.join(d, '_power', 'dassh_reactor.pkl'), 'wb'))
+        tables = {}
+        for nm in ('inner', 'outer'):
+            p_avg = np.average([p for (n_, p) in layout if n_ == nm])
+            t = np.zeros((12, 5))
+            t[:, 0] = np.geomspace(0.05, 1.0, 12)
+            t[:, 1] = p_avg
+            t[:, 2] = p_avg / 1e6 / t[:, 0]
+            t[:, 3] = lim * 1e6 * (t[:, 2] / m_at_limit[nm]) ** 2
+            t[:, 4] = 623.15 + 950.0 * t[:, 0]
+            tables[nm] = t
+            np.savetxt(os.path.join(d, '_parametric', 'data_%s.csv' % nm), t, delimiter=',')
+        logging.getLogger('dassh').setLevel(logging.CRITICAL)
+        cwd = os.getcwd()
+        try:
+            inp = dassh.DASSH_Input(os.path.join(d, 'input.txt'), empty4c=True)
+            o = dassh.Orificing(inp)
+            o.group_by_power()
+            o.run_parametric()
+            m, t_opt = o.distribute()
+        except SystemExit:
+            ctx.count("chain_error_exit")
+            continue
+        except Exception as ex:
+            ctx.violation("c20-chain-exception:%s" % type(ex).__name__, "the orificing set-up chain fails with %r" % ex, layout=layout, types=types)
+            continue
+        finally:
+            os.chdir(cwd)
+            shutil.rmtree(d, ignore_errors=True)
+        ctx.evals += 1
+        ctx.count("chain_cases")
+        ids = o.group_data[:, 0].astype(int)
+        grp = o.group_data[:, 2].astype(int)
+        power = np.array([p for (_, p) in layout])
+        info = dict(layout=layout, types_listed=types, n_groups=ng, flows=np.asarray(m).tolist(), groups=grp.tolist(), ids=ids.tolist(),
+                    flow_at_limit=m_at_limit)
+        if sorted(ids.tolist()) != list(range(n_asm)) or sorted(set(grp.tolist())) != list(range(ng)):
+            ctx.violation("c20-chain-partition", "set-up chain: %d assemblies in groups %s, %d non-empty groups requested"
+                          % (len(ids), sorted(set(grp.tolist())), ng), **info)
+            continue
+        for g in range(ng):
+            if np.ptp(np.asarray(m)[grp == g]) > 1e-12:
+                ctx.violation("c20-equal-flow", "set-up chain: members of group %d get different flows" % g, **info)
+        m_req = dassh.Q_equals_mCdT(float(np.sum(power)), 623.15, o.coolant, t_out=773.15)
+        if abs(float(np.sum(m)) - m_req) > 1e-6 * m_req:
+            ctx.violation("c20-mass", "set-up chain: distributed flows sum to %.9g, required total %.9g" % (np.sum(m), m_req), **info)
+        for k in range(len(ids)):
+            if grp[k] == ng - 1:
+                continue                     # (the last group takes the remainder: c20_last_group_can_exceed)
+            nm = layout[ids[k]][0]
+            tab = tables[nm][tables[nm][:, 2].argsort()]
+            dp = float(np.interp(m[k], tab[:, 2], tab[:, 3])) * 1e-6
+            if dp > lim * (1 + 1e-9):
+                ctx.violation("c20-dp-limit:chain", "set-up chain: assembly %d (type %s, group %d of %d) gets %.6g kg/s: pressure drop %.4f MPa "
+                              "on its own type's curve exceeds the limit %.3f MPa" % (ids[k], nm, grp[k], ng, m[k], dp, lim), **info)
+                break
+
+
 def run(ctx):
     rng = random.Random(20000 + ctx.seed)
     ctx.rule = ("generated power lists (ties, widely spread, clustered, uniform, all equal), 1-6 groups, several cut-offs; "
@@ -270,6 +433,7 @@ def run(ctx):
     correspondence_and_oracle(ctx, rng, 1200 if ctx.thorough else 250)
     del CLAMP_REQ[:]
     oracle_distribute(ctx, rng, 200 if ctx.thorough else 50)
+    oracle_chain(ctx, rng, 12 if ctx.thorough else 4)
     if CLAMP_REQ and modelio.build_driver(ctx):
         bad = 0
         for rep, (req, real, info) in zip(modelio.ask([r[0] for r in CLAMP_REQ]), CLAMP_REQ):
